@@ -39,6 +39,7 @@ def run(ctx):
     index_sync(ctx, facts)
     loud(ctx, facts)
     channel_per_batch(ctx, facts)
+    index_arith(ctx, facts)
     callers(ctx, facts)
     ctx.assume("tokio::sync::watch delivers the last value sent before a successful changed(); std::sync::Mutex serialises callers")
 
@@ -442,3 +443,48 @@ def channel_per_batch(ctx, facts):
             ok = direct and (same_cycle or not any(bb in b.reachable(s_) for s_ in b.succs(bb)))
             ctx.ob("CHANNEL-per-batch", f"{b.path.split('::')[-1]}:own-channel", ok, "each created batch gets a fresh verdict channel" if ok else "a BatchState is built with a clone of / a channel created outside the loop that creates the batches: batches created by the same call share one verdict channel, so a waiter is released by a sibling batch's verdict before its own batch was checked", site_of(b, bb, idx))
     ctx.floor("CHANNEL-per-batch", "BatchState construction sites", n, 1)
+
+
+# ---------------------------------------------------------------------------------------------
+def index_arith(ctx, facts):
+    """Which batch a record belongs to, its position inside it and the size of that batch - evaluated."""
+    from rules.C13 import ieval, NoEval
+    ctx.rule("INDEX-arith: with b = records_per_batch, f = first_batch, T = total records and record id r in a batch not yet validated: first_batch + batch_offset(r) = r div b; the position used for the pending bit is r mod b; the readiness threshold is the true size of that batch, min(b, T - (r div b)*b) - evaluated from the extracted expressions (batch_offset inlined) for b = 1..5, f = 0..3, T = 1..24 and every admissible r")
+    P = "protocol::context::batcher::Batcher::<'a, B>::"
+    b = facts.bodies.get(P + "is_ready_for_validation")
+    if b is None or (P + "batch_offset") not in facts.bodies:
+        return ctx.missing("INDEX-arith", "Batcher::is_ready_for_validation / batch_offset")
+    ctx.count(bodies=2)
+    inl = lambda e: flow.inline_calls(facts, e, only=r"Batcher::<'a, B>::batch_offset$")
+    mins = flow.find_calls(b, re.compile(r"cmp::min$"))
+    gb = flow.find_calls(b, re.compile(r"get_batch_by_offset$"))
+    rs = flow.find_calls(b, re.compile(r"BitVec<T, O>>::resize$"))
+    if len(mins) != 1 or not gb or not rs:
+        return ctx.missing("INDEX-arith", "min(..) threshold / get_batch_by_offset / pending_records.resize in is_ready_for_validation")
+    thr = inl(("call", "std::cmp::min", tuple(flow.expr_of(b, a, max_depth=16) for a in mins[0][1]["args"])))
+    off = inl(flow.expr_of(b, gb[0][1]["args"][1], max_depth=16))
+    pos1 = inl(flow.expr_of(b, rs[0][1]["args"][1], max_depth=16))       # record_offset_in_batch + 1
+    RID, RPB, FB = ("call", "std::convert::From::from", (("arg", 2),)), ("arg", 1, "records_per_batch"), ("arg", 1, "first_batch")
+    TOT = ("proj", ("call", "helpers::TotalRecords::count", (("arg", 1, "total_records"),)), "as:Some", "0")
+    bad = None
+    n = 0
+    try:
+        for rpb in range(1, 6):
+            for fb in range(0, 4):
+                for tot in range(1, 25):
+                    for r in range(fb * rpb, tot):
+                        env = {RID: r, ("arg", 2): r, RPB: rpb, FB: fb, TOT: tot}
+                        n += 1
+                        o = ieval(off, env)
+                        if fb + o != r // rpb and bad is None:
+                            bad = f"b={rpb}, first_batch={fb}: record {r} is filed under batch {fb + o}, it belongs to batch {r // rpb}"
+                        p = ieval(pos1, env) - 1
+                        if p != r % rpb and bad is None:
+                            bad = f"b={rpb}, first_batch={fb}: record {r} gets position {p} in its batch, expected {r % rpb}"
+                        t = ieval(thr, env)
+                        want = min(rpb, tot - (r // rpb) * rpb)
+                        if t != want and bad is None:
+                            bad = f"b={rpb}, total={tot}: the batch of record {r} is released after {t} records, it holds {want}"
+    except NoEval as ex:
+        bad = f"cannot evaluate ({ex})"
+    ctx.ob("INDEX-arith", "batch-position-size", bad is None, f"batch index, position and batch size agree with div / mod / min on all {n} grid points" if bad is None else bad, site_of(b, mins[0][0]))
